@@ -60,7 +60,17 @@ pub fn check_case(c: &Case) -> CaseResult {
     };
     let cfg = Cfg { dwarf: true, ..Cfg::default() };
     let reset_ct = c.cfg["reset_preserve_ct_after"].as_bool().unwrap_or(false);
-    let parsed = if reset_ct {
+    let custom_locs = c.cfg["instr_loc"].as_str() == Some("descending");
+    let parsed = if custom_locs {
+        // location ids supplied by the user, unique but ordered against the code offsets
+        let mut wc = cfg.config();
+        wc.on_instr_loc(|pos| walrus::ir::InstrLocId::new(0x7fff_0000 - *pos as u32));
+        match std::panic::catch_unwind(std::panic::AssertUnwindSafe(|| wc.parse(&input))) {
+            Ok(Ok(m)) => Ok(m),
+            Ok(Err(e)) => Err(Fail::Rejected(format!("{:#}", e))),
+            Err(p) => Err(Fail::Panic { stage: "parse", msg: panic_msg(p) }),
+        }
+    } else if reset_ct {
         // generate_dwarf(true) followed by an explicit preserve_code_transform(false)
         let mut wc = cfg.config();
         wc.preserve_code_transform(false);
@@ -342,6 +352,22 @@ pub fn cases(args: &Args) -> Vec<Case> {
                             }
                         }
                     }
+                }
+            }
+        }
+    }
+    // location ids from an on_instr_loc callback (descending in the code offset)
+    for &n in &[1usize, 2, 3] {
+        for &s in &[8usize, 24] {
+            for locals_mode in [0u8, 2] {
+                for edit in ["none", "gc", "insert"] {
+                    let wasm = wgen::families::build_leb_full(n, 0, s, true, edit == "gc", 0, locals_mode);
+                    out.push(Case {
+                        family: "dwarf".into(),
+                        coords: format!("n={},big=0,size={},nops=true,locals={},instr-loc=descending", n, s, locals_mode),
+                        wasm,
+                        cfg: json!({"version": 4, "file_index": 0, "one_sequence": false, "low_pc": "body", "edit": edit, "range_form": "offset", "instr_loc": "descending"}),
+                    });
                 }
             }
         }
